@@ -372,19 +372,11 @@ theorem nfc_slices_agree (op : String) (b lsh : W) (h : Radix128 b lsh) (l : Lis
 example : isOkWith (slice128Avx "nfc_middle" 12#64 3#64 [(0, 100000, 5), (0, -5, 0), (0, 1, 1), (0, 2, 2), (0, 3, 3)])
     [(1285, 195), (-40, 0), (9, 0), (18, 0), (27, 0)] = true := by decide
 
-/-! ### index kernels (`automorphism.rs`, `switch_ring.rs`)
-
-/- FULL STATEMENT (not proved): for every power of two `n ≥ 4`, every odd `p : i64` and all `res a : List W` of
-   length `n`, `automorphismAvx p res a = automorphismRef p res a` (the gather through `inv_mod_pow2(p mod 2n)`
-   equals the scatter with running index `k += p mod 2n`; needs `inv · p ≡ 1 (mod 2n)` from the Hensel iteration and
-   the bijectivity of `i ↦ i·p mod 2n`), and for all admissible degree pairs
-   `switchRingAvx res a = switchRingRef res a`.  Both index kernels are executable in the model and tied to the
-   four back ends for every degree pair in {1,…,64}² and every odd exponent class (exhaustively for n ≤ 16);
-   what is proved is the lane part: -/ -/
+/-! ### index kernels (`automorphism.rs`, `switch_ring.rs`) -/
 
 /-- lane part of `znx_automorphism_avx`: `(v ^ mask) - mask` with `mask = cmpgt(t, n−1)` negates exactly the
 lanes whose exponent `t` lies in `[n, 2n)` -/
-theorem automorphism_cond_negate_partial (v t m : W) :
+theorem automorphism_cond_negate (v t m : W) :
     sub_epi64 (xor_si256 v (cmpgt_epi64 t m)) (cmpgt_epi64 t m) = if BitVec.slt m t then -v else v := condNegate_eq v t m
 example : isOkWith (automorphismAvx (-5) [0, 0, 0, 0, 0, 0, 0, 0] [1, 2, 3, 4, 5, 6, 7, 8]) [1, 4, 7, -2, -5, -8, 3, 6] = true
     ∧ isOkWith (automorphismRef (-5) [0, 0, 0, 0, 0, 0, 0, 0] [1, 2, 3, 4, 5, 6, 7, 8]) [1, 4, 7, -2, -5, -8, 3, 6] = true
@@ -403,5 +395,24 @@ theorem switch_ring_avx_eq_ring_model (res a : List W) (ki ko : Nat) (hr : res.l
   exact ⟨h2, by rw [h1, h2]⟩
 example : isOkWith (switchRingAvx [9, 9, 9, 9] [1, 2, 3, 4, 5, 6, 7, 8, 9, 10, 11, 12, 13, 14, 15, 16]) [1, 5, 9, 13] = true
     ∧ ofI (znxSwitchRing 4 (toI [1, 2, 3, 4, 5, 6, 7, 8, 9, 10, 11, 12, 13, 14, 15, 16])) = [1, 5, 9, 13] := by decide
+
+/-! ### `znx_automorphism_avx`: general degrees -/
+
+/-- for every degree `n = 2^k ≤ 2^61`, every odd `p : i64` (any sign, any size) and all lane contents, the AVX kernel —
+`p mod 2n` by masks, `inv_mod_pow2` by Hensel lifting in wrapping `usize` arithmetic, lane offsets
+`[0, inv, 2·inv, 3·inv] mod 2n`, `t_base += 4·inv mod 2n`, gather at `t & (n−1)`, sign mask `t > n−1`,
+`(v ^ m) − m` — and the reference kernel (scatter with running index) both return the ring model's
+`znxAutomorphism p` (C09); every gather index is in range; the previous content of `res` is irrelevant -/
+theorem automorphism_avx_eq_ring_model (p : Int) (res a : List W) (k : Nat) (hk : k ≤ 61)
+    (hr : res.length = 2 ^ k) (ha : a.length = 2 ^ k) (hp : p % 2 = 1) :
+    automorphismAvx p res a = .ok (ofI (znxAutomorphism p (toI a))) ∧ automorphismAvx p res a = automorphismRef p res a := by
+  obtain ⟨h1, h2⟩ := automorphism_all p res a k hk hr ha hp
+  exact ⟨h2, by rw [h1, h2]⟩
+example : ofI (znxAutomorphism (-5) (toI [1, 2, 3, 4, 5, 6, 7, 8])) = [1, 4, 7, -2, -5, -8, 3, 6] := by decide
+
+/-- the modular inverse used by the gather: `inv_mod_pow2(p, bits) · p ≡ 1 (mod 2^bits)` for every odd `p`, `1 ≤ bits ≤ 63` -/
+theorem inv_mod_pow2_correct (p : W) (bits : Nat) (h1 : 1 ≤ bits) (hb : bits ≤ 63) (hodd : p &&& 1#64 = 1#64) :
+    ((invModPow2 p bits).toNat * p.toNat) % 2 ^ bits = 1 ∧ (invModPow2 p bits).toNat < 2 ^ bits := inv_spec p bits h1 hb hodd
+example : invModPow2 11#64 4 = 3#64 ∧ invModPow2 0xFFFFFFFFFFFFFFFB#64 6 = 51#64 := by decide
 
 end C10
